@@ -18,6 +18,7 @@ type Decls struct {
 	tags    map[string]int    // dynamic type tag numbers
 	tagList []string
 	funcIDs map[string]int
+	used    map[string]bool // theory functions used (dmul, ddiv): their axioms are included
 }
 
 type StructInfo struct {
@@ -34,7 +35,7 @@ type FieldInfo struct {
 }
 
 func NewDecls() *Decls {
-	return &Decls{seen: map[string]bool{}, structs: map[string]*StructInfo{}, consts: map[string]string{}, strlits: map[string]string{}, tags: map[string]int{}, funcIDs: map[string]int{}}
+	return &Decls{seen: map[string]bool{}, structs: map[string]*StructInfo{}, consts: map[string]string{}, strlits: map[string]string{}, tags: map[string]int{}, funcIDs: map[string]int{}, used: map[string]bool{}}
 }
 
 func (d *Decls) add(sym, text string) {
